@@ -268,6 +268,18 @@ def has_aoh(*docs):
     return any(walk(d) for d in docs)
 
 
+def homogeneous_lists(n):
+    """Every list holding a hash holds only non-empty hashes (value synchronisation may pair lists
+    found at different positions, so this is required of every list of either document)."""
+    if isinstance(n, dict):
+        return all(homogeneous_lists(v) for v in n.values())
+    if isinstance(n, list) and not yp.is_set(n):
+        if any(isinstance(e, dict) for e in n) and not all(isinstance(e, dict) and len(e) for e in n):
+            return False
+        return all(homogeneous_lists(e) for e in n)
+    return True
+
+
 def keyable(l, r):
     """key/deep modes are only offered list pairs whose members are all hashes holding the identity key
     (the first key of the first right-hand record)."""
@@ -308,7 +320,7 @@ def check_pair(ctx, ltext, rtext, arr, aoh):
     except yp.LoadError:
         return
     case = {"lhs": ltext, "rhs": rtext, "arrays": arr, "aoh": aoh}
-    if aoh in ("key", "deep") and not keyable(L, R):
+    if aoh in ("key", "deep") and not (homogeneous_lists(L) and homogeneous_lists(R) and keyable(L, R)):
         ctx.count("key_mode_not_applicable_skipped")
         return
     if arr == "value" and aoh in ("position", "dpos") and has_aoh(L, R):
